@@ -3,6 +3,7 @@ package main
 // Generic helpers added for the C10 / C13 / C20 rules.
 
 import (
+	"fmt"
 	"go/constant"
 	"go/token"
 	"go/types"
@@ -855,4 +856,382 @@ func assignedOnlyUnder(ff *FuncFacts, v ssa.Value, match func(c ssa.Value, key s
 		return false
 	}
 	return rec(v, nil) && n > 0
+}
+
+// ---------------------------------------------------------------------------------------------
+// Frames: values seen through repository helper calls and closures.
+//
+// A frame is one activation of a function: its actual arguments and (for closures) the bindings of
+// its free variables, each evaluated in the frame of the caller / creator. An fval is an SSA value
+// together with the frame it is evaluated in. resolve follows parameters to arguments, free
+// variables to their bindings, loads of capture cells to the single stored value and — for calls a
+// simulation has walked (rets) or, with enterCalls, for repository calls whose result is one and
+// the same value on every return — call results to the returned value in the callee's frame.
+
+type frame struct {
+	fn   *ssa.Function
+	args []fval
+	free []fval
+	id   int
+}
+
+type fval struct {
+	v  ssa.Value
+	fr *frame
+}
+
+type frames struct {
+	prog       *Prog
+	cache      map[string]*frame
+	n          int
+	enterCalls bool
+	rets       func(call *ssa.Call, fr *frame) ([]fval, bool)
+}
+
+func newFrames(prog *Prog) *frames { return &frames{prog: prog, cache: map[string]*frame{}} }
+
+func (F *frames) top(fn *ssa.Function) *frame {
+	F.n++
+	return &frame{fn: fn, id: F.n}
+}
+
+// closureFrame: frame of a function value created by MakeClosure mc inside frame fr (args filled by the caller).
+func (F *frames) calleeOf(cc *ssa.CallCommon, fr *frame) (*ssa.Function, []fval) {
+	if cc.IsInvoke() {
+		return nil, nil
+	}
+	x := F.resolve(fval{cc.Value, fr})
+	switch f := x.v.(type) {
+	case *ssa.Function:
+		return f, nil
+	case *ssa.MakeClosure:
+		fn, _ := f.Fn.(*ssa.Function)
+		var free []fval
+		for _, b := range f.Bindings {
+			free = append(free, fval{b, x.fr})
+		}
+		return fn, free
+	}
+	return nil, nil
+}
+
+// callFrame returns the callee and the frame of a call made in frame fr (nil if not resolvable to a
+// function with a body).
+func (F *frames) callFrame(call ssa.CallInstruction, fr *frame) (*ssa.Function, *frame) {
+	cc := call.Common()
+	fn, free := F.calleeOf(cc, fr)
+	if fn == nil || len(fn.Blocks) == 0 {
+		return nil, nil
+	}
+	id := 0
+	if fr != nil {
+		id = fr.id
+	}
+	key := fmt.Sprintf("%p|%d", call, id)
+	if f, ok := F.cache[key]; ok {
+		return fn, f
+	}
+	F.n++
+	f := &frame{fn: fn, free: free, id: F.n}
+	for _, a := range cc.Args {
+		f.args = append(f.args, fval{a, fr})
+	}
+	if len(f.args) != len(fn.Params) {
+		return nil, nil
+	}
+	F.cache[key] = f
+	return fn, f
+}
+
+// singleReturn: result idx of fn is the same SSA value on every return (nil otherwise).
+func singleReturn(fn *ssa.Function, idx int) ssa.Value {
+	var out ssa.Value
+	for _, b := range fn.Blocks {
+		ret := returnOf(b)
+		if ret == nil {
+			continue
+		}
+		if idx >= len(ret.Results) {
+			return nil
+		}
+		if out != nil && out != ret.Results[idx] {
+			return nil
+		}
+		out = ret.Results[idx]
+	}
+	return out
+}
+
+func (F *frames) resolve(x fval) fval {
+	for i := 0; i < 48; i++ {
+		switch v := x.v.(type) {
+		case *ssa.Parameter:
+			if x.fr == nil || x.fr.args == nil || v.Parent() != x.fr.fn {
+				return x
+			}
+			x = x.fr.args[paramIndex(v)]
+		case *ssa.FreeVar:
+			if x.fr == nil || x.fr.free == nil || v.Parent() != x.fr.fn {
+				return x
+			}
+			idx := -1
+			for j, f := range x.fr.fn.FreeVars {
+				if f == v {
+					idx = j
+				}
+			}
+			if idx < 0 || idx >= len(x.fr.free) {
+				return x
+			}
+			x = x.fr.free[idx]
+		case *ssa.UnOp:
+			if v.Op != token.MUL {
+				return x
+			}
+			// load of a variable cell reached through a free variable / parameter: the single stored value
+			inner := F.resolve(fval{v.X, x.fr})
+			a, ok := inner.v.(*ssa.Alloc)
+			if !ok || (inner.v == v.X && inner.fr == x.fr) {
+				return x
+			}
+			sts := cellStores(a)
+			if len(sts) != 1 {
+				return x
+			}
+			x = fval{sts[0].Val, inner.fr}
+		case *ssa.Call, *ssa.Extract:
+			var call *ssa.Call
+			idx := 0
+			if ex, isE := v.(*ssa.Extract); isE {
+				call, _ = ex.Tuple.(*ssa.Call)
+				idx = ex.Index
+			} else {
+				call = v.(*ssa.Call)
+			}
+			if call == nil {
+				return x
+			}
+			if F.rets != nil {
+				if vals, ok := F.rets(call, x.fr); ok && idx < len(vals) {
+					x = vals[idx]
+					continue
+				}
+			}
+			if !F.enterCalls {
+				return x
+			}
+			fn, fr2 := F.callFrame(call, x.fr)
+			if fn == nil || !F.prog.IsRuleSite(fn) {
+				return x
+			}
+			rv := singleReturn(fn, idx)
+			if rv == nil {
+				return x
+			}
+			x = fval{rv, fr2}
+		default:
+			return x
+		}
+	}
+	return x
+}
+
+// loc returns the object a value/address is rooted at (through loads, fields, elements, helper
+// parameters and captures) and the field path from it.
+func (F *frames) loc(x fval) (fval, []string) {
+	var path []string
+	for i := 0; i < 24; i++ {
+		root, p := deepPath(x.v)
+		path = append(append([]string{}, p...), path...)
+		r := F.resolve(fval{root, x.fr})
+		if a, ok := r.v.(*ssa.Alloc); ok && (r.v != root || r.fr != x.fr) {
+			// a capture cell holding a pointer / function: continue with the stored value
+			if _, isStruct := a.Type().Underlying().(*types.Pointer).Elem().Underlying().(*types.Struct); !isStruct {
+				if sts := cellStores(a); len(sts) == 1 {
+					x = fval{sts[0].Val, r.fr}
+					continue
+				}
+			}
+		}
+		if r.v == root && r.fr == x.fr {
+			return r, path
+		}
+		x = r
+	}
+	return x, path
+}
+
+// hasLoop reports whether the function has a back edge.
+func hasLoop(fn *ssa.Function) bool {
+	for _, b := range fn.Blocks {
+		for _, s := range b.Succs {
+			if s.Dominates(b) {
+				return true
+			}
+		}
+	}
+	return false
+}
+
+func stripMeta(p []string) []string {
+	var out []string
+	for _, f := range p {
+		if f != "ObjectMeta" {
+			out = append(out, f)
+		}
+	}
+	return out
+}
+
+// mapSetter recognises a repository helper of the shape `func(m map, key, value) map` that returns,
+// on every path, a map (its parameter, or a fresh one when that was nil) in which key→value has been
+// set. Returns the parameter indices.
+func mapSetter(prog *Prog, fn *ssa.Function) (mi, ki, vi int, ok bool) {
+	if fn == nil || !prog.IsRuleSite(fn) || fn.Signature.Results().Len() != 1 {
+		return 0, 0, 0, false
+	}
+	rv := singleReturn(fn, 0)
+	if rv == nil {
+		return 0, 0, 0, false
+	}
+	if _, isMap := rv.Type().Underlying().(*types.Map); !isMap {
+		return 0, 0, 0, false
+	}
+	mi = -1
+	for _, o := range origins(rv) {
+		switch x := o.(type) {
+		case *ssa.Parameter:
+			mi = paramIndex(x)
+		case *ssa.MakeMap:
+		default:
+			return 0, 0, 0, false
+		}
+	}
+	if mi < 0 {
+		return 0, 0, 0, false
+	}
+	for _, b := range fn.Blocks {
+		for _, in := range b.Instrs {
+			mu, isMU := in.(*ssa.MapUpdate)
+			if !isMU || mu.Map != rv {
+				continue
+			}
+			kp, isK := mu.Key.(*ssa.Parameter)
+			vp, isV := mu.Value.(*ssa.Parameter)
+			if !isK || !isV {
+				continue
+			}
+			dom := true
+			for _, rb := range fn.Blocks {
+				if returnOf(rb) != nil && !b.Dominates(rb) {
+					dom = false
+				}
+			}
+			if dom {
+				return mi, paramIndex(kp), paramIndex(vp), true
+			}
+		}
+	}
+	return 0, 0, 0, false
+}
+
+// annWrite is one write of a constant key into obj.Annotations.
+type annWrite struct {
+	in  ssa.Instruction
+	val ssa.Value
+}
+
+// annotationWrites lists the writes of annotation `key` of the object obj in fn: map updates on
+// obj.Annotations, and `obj.Annotations = setter(obj.Annotations, key, v)` through a mapSetter helper.
+// lost reports a write that a later reassignment of the Annotations field can undo.
+func annotationWrites(prog *Prog, fn *ssa.Function, isObj func(ssa.Value) bool, key string) (ws []annWrite, lost string) {
+	isAnnField := func(addr ssa.Value) bool {
+		if _, isFA := addr.(*ssa.FieldAddr); !isFA {
+			return false
+		}
+		root, p := accessPath(addr)
+		return len(p) > 0 && p[len(p)-1] == "Annotations" && isObj(root)
+	}
+	isAnnLoad := func(v ssa.Value) bool {
+		u, ok := v.(*ssa.UnOp)
+		return ok && u.Op == token.MUL && isAnnField(u.X)
+	}
+	var fieldStores []*ssa.Store
+	ff := computeFacts(fn)
+	for _, b := range fn.Blocks {
+		for _, in := range b.Instrs {
+			switch x := in.(type) {
+			case *ssa.MapUpdate:
+				if s, isC := constString(x.Key); !isC || s != key {
+					continue
+				}
+				if isAnnLoad(x.Map) {
+					ws = append(ws, annWrite{x, x.Value})
+				}
+			case *ssa.Store:
+				if !isAnnField(x.Addr) {
+					continue
+				}
+				fieldStores = append(fieldStores, x)
+				call, isCall := x.Val.(*ssa.Call)
+				if !isCall {
+					continue
+				}
+				mi, ki, vi, ok := mapSetter(prog, staticCallee(&call.Call))
+				if !ok {
+					continue
+				}
+				if s, isC := constString(call.Call.Args[ki]); isC && s == key {
+					_ = mi
+					ws = append(ws, annWrite{x, call.Call.Args[vi]})
+				}
+			}
+		}
+	}
+	keeps := func(st *ssa.Store) bool {
+		if call, isCall := st.Val.(*ssa.Call); isCall {
+			if mi, _, _, ok := mapSetter(prog, staticCallee(&call.Call)); ok && isAnnLoad(call.Call.Args[mi]) {
+				return true
+			}
+		}
+		if _, isMM := st.Val.(*ssa.MakeMap); isMM {
+			k := ff.K.key(st.Addr)
+			return ff.Holds(st.Block(), true, func(v ssa.Value, _ string) bool {
+				return isNilCompareOf(v, func(y ssa.Value) bool {
+					u, ok := y.(*ssa.UnOp)
+					return ok && u.Op == token.MUL && ff.K.key(u.X) == k
+				})
+			})
+		}
+		return false
+	}
+	for _, w := range ws {
+		for _, st := range fieldStores {
+			if ssa.Instruction(st) == w.in || keeps(st) {
+				continue
+			}
+			after := false
+			if st.Block() == w.in.Block() {
+				seen := false
+				for _, in := range st.Block().Instrs {
+					if in == w.in {
+						seen = true
+					}
+					if in == ssa.Instruction(st) && seen {
+						after = true
+					}
+				}
+			} else {
+				for _, sc := range w.in.Block().Succs {
+					if reaches(sc, st.Block()) {
+						after = true
+					}
+				}
+			}
+			if after {
+				lost = "the Annotations field is reassigned after the annotation was written"
+			}
+		}
+	}
+	return ws, lost
 }
